@@ -249,10 +249,30 @@ class MapInit(FunctionContract):
         d = ctx.deref(args[0])
         return ctx.alloc(VDict(d.ty, d.dom, d.val))       # dict(x): a new dict object with the same items
 
+    def m_wrapper(self, ctx, it, args, kw):
+        # the wrapper must get the generator in use and the caller's translation function, nothing else
+        a = [ctx.deref(x) for x in args]
+        if kw or len(a) != 2 or not isinstance(a[0], VNameGenerator) or not (isinstance(a[1], VPy) and a[1].py == "<translate>"):
+            raise Unsupported("_KeyTranslatingUniqueNameGeneratorWrapper(%r, %r)" % (args, kw))
+        self.wrapped = a[0]
+        return VPy("<wrapper of the generator in use and key_translate_func>")
+
+    def m_new_generator(self, ctx, it, args, kw):
+        # only reached when no generator is passed: it must carry the forced prefix
+        fp = ctx.deref(kw["forced_prefix"]) if set(kw) == {"forced_prefix"} and not args else None
+        if not (isinstance(fp, VPy) and fp.py == self.prefix_marker):
+            raise Unsupported("UniqueNameGenerator(%r, %r): the map's names carry its forced prefix only if the generator gets it"
+                              % (args, kw))
+        g = VNameGenerator(ctx.env["$existing"])       # its set of names: the ghost the invariants speak about
+        self.made = g
+        return g
+
+    prefix_marker = ""
+
     names = property(lambda self: {
         "dict": VFunc("dict", self.m_dict),
-        "_KeyTranslatingUniqueNameGeneratorWrapper": VFunc("wrapper", lambda ctx, it, a, k: VPy("<wrapper>")),
-        "UniqueNameGenerator": VFunc("UniqueNameGenerator", lambda ctx, it, a, k: VNameGenerator(ctx.alloc(empty_set(TSet(IDENT)))))})
+        "_KeyTranslatingUniqueNameGeneratorWrapper": VFunc("wrapper", self.m_wrapper),
+        "UniqueNameGenerator": VFunc("UniqueNameGenerator", self.m_new_generator)})
 
     def getattr_hook(self, ctx, it, obj, name):
         o = ctx.deref(obj)
@@ -288,7 +308,28 @@ class MapInit(FunctionContract):
                  z3.BoolVal(isinstance(dref, VRef) and dref.loc != st._env["start"].loc)),
                 ("same-items-as-start", And(D.dom == st.old.start.dom, D.val == st.old.start.val)),
                 ("prefixed-start-values-are-registered-with-the-generator",
-                 ForAll([k1], Implies(And(Select(D.dom, k1), generated_by(Select(D.val, k1))), Select(EX, Select(D.val, k1)))))]
+                 ForAll([k1], Implies(And(Select(D.dom, k1), generated_by(Select(D.val, k1))), Select(EX, Select(D.val, k1))))),
+                ("names-are-made-by-the-given-generator-through-the-caller's-translation-function",
+                 z3.BoolVal(getattr(st._deref(selfo.fields.get("_generator")), "py", None)
+                            == "<wrapper of the generator in use and key_translate_func>"
+                            and getattr(self, "wrapped", None) is self.generator_in_use(st)))]
+
+    def generator_in_use(self, st):
+        return st._deref(st._env["name_generator"])
+
+
+class MapInitOwnGenerator(MapInit):
+    """the same with no generator passed: the map makes its own UniqueNameGenerator, which must get the forced prefix"""
+    variant_name = "own-generator"
+    prefix_marker = "<forced_prefix>"
+
+    def params(self, ctx):
+        MapInit.params(self, ctx)
+        ctx.env["forced_prefix"] = VPy("<forced_prefix>")
+        ctx.env["name_generator"] = NONE
+
+    def generator_in_use(self, st):
+        return getattr(self, "made", None)
 
 
 # ==========================================================================
@@ -382,7 +423,13 @@ class GetItem(FunctionContract):
         return VPy("<local identifier>")
 
     calls = property(lambda self: {"self.name_global": self.m_global, "self.name_local": self.m_local})
-    names = property(lambda self: {"is_state_variable": VFunc("is_state_variable", lambda c, i, a, k: VBool(self.persistent))})
+    def m_is_state(self, ctx, it, args, kw):
+        a = ctx.deref(args[0]) if len(args) == 1 and not kw else None
+        if not (isinstance(a, VPy) and a.py == "<name>"):
+            raise Unsupported("is_state_variable(%r): the storage class must be decided on the name that was asked for" % (args,))
+        return VBool(self.persistent)
+
+    names = property(lambda self: {"is_state_variable": VFunc("is_state_variable", self.m_is_state)})
 
     def binop_hook(self, ctx, it, op, a, b):
         if op is pyast.Add and isinstance(a, VPy) and isinstance(b, VPy):
@@ -395,7 +442,7 @@ class GetItem(FunctionContract):
 
 
 def _units_core():
-    return [FunctionUnit(Sanitiser()), FunctionUnit(MapInit()), FunctionUnit(GetOrMake()), FunctionUnit(IsStateVariable()),
+    return [FunctionUnit(Sanitiser()), FunctionUnit(MapInit()), FunctionUnit(MapInitOwnGenerator()), FunctionUnit(GetOrMake()), FunctionUnit(IsStateVariable()),
             FunctionUnit(GetItem(PY, "PythonNameManager.__getitem__")),
             FunctionUnit(GetItem(FT, "FortranNameManager.__getitem__")),
             LemmaUnit("lemma:name-spaces", prefix_lemmas),
